@@ -223,3 +223,45 @@ def run(ctx):
         ctx.case(('dependent', tuple(lst)), True, sample=dict(op='stabilizer_state', N=n, stabs=lst, kind='dependent'))
         if got != 'err ValueError':
             ctx.fail('stabilizer_state', 'dependent stabilizers not rejected with ValueError (%s)' % got, dict(stabs=lst))
+    # anticommuting pair hidden among commuting neighbours: every list-adjacent pair commutes, two non-adjacent entries anticommute
+    for _ in range(ctx.budget(60, 500)):
+        n = rng.choice([2, 3, 4, 5])
+        rows, _r = G.rand_tableau(rng, n, 0)
+        stab, destab = rows[:n], rows[n:]
+        k = rng.randrange(n)
+        others = [i for i in range(n) if i != k]
+        rng.shuffle(others)
+        # stab[k] anticommutes with destab[k] only; the entries between them are stabilizers other than k (commute with both)
+        between = [stab[i] for i in others[:rng.randrange(1, len(others) + 1)]] if others else []
+        if not between:
+            continue
+        lst = [stab[k]] + between + [destab[k]]
+        if rng.random() < 0.5:
+            lst.reverse()
+        lst = [(x[0], rng.choice((0, 2))) for x in lst]
+        try:
+            pc.stabilizer_state(impl.plist(lst, n)); got = 'no error'
+        except ValueError:
+            got = 'err ValueError'
+        except Exception as e:
+            got = impl.errname(e)
+        ctx.q('stabstate', 'stabstate %d %s' % (n, H.erows_ops(lst)), got)
+        ctx.case(('anti-nonadjacent', tuple(lst)), True, sample=dict(op='stabilizer_state', N=n, stabs=lst, kind='non-adjacent anticommuting pair'))
+        ctx.count('anti-nonadjacent')
+        if got != 'err ValueError':
+            ctx.fail('stabilizer_state', 'a list with a non-adjacent anticommuting pair is not rejected with ValueError (%s)' % got, dict(stabs=lst))
+    # dense export through the expansion over the stabilizer group (density_matrix), small and with nine or more generators
+    for n, r in [(rng.choice([1, 2, 3]), 0), (rng.choice([2, 3, 4]), 1), (9, 0), (10, 1)][:ctx.budget(3, 4)]:
+        rows, r = G.rand_tableau(rng, n, r)
+        st = impl.state(rows, r)
+        try:
+            dm = st.density_matrix
+            terms = sorted((O.from_gp(g, p), round(float(np.real(c)) * 2 ** n, 9)) for g, p, c in zip(dm.gs, dm.ps, dm.cs))
+        except Exception as e:
+            ctx.fail('StabilizerState.density_matrix', 'implementation raised %r' % e, dict(N=n, r=r)); continue
+        want = sorted((o_, 1.0) for o_ in O.group_elements(rows[r:n], n))
+        ctx.case(('density-export', n, r, tuple(rows)), n - r >= 2, sample=dict(op='density_matrix', N=n, r=r, terms=len(terms)))
+        ctx.count('density-export:%d-generators' % (n - r))
+        if terms != want:
+            ctx.fail('StabilizerState.density_matrix', 'the expansion is not every group element exactly once with weight 2^-N (%d terms, %d group elements)' % (len(terms), len(want)),
+                     dict(N=n, r=r, rows=rows))
